@@ -467,7 +467,7 @@ func c20Origins(p *core.Prog, v ssa.Value, out map[string]bool, seen map[ssa.Val
 		switch a := x.X.(type) {
 		case *ssa.FieldAddr:
 			f := core.FieldOfAddr(a)
-			out["sess."+f.Name()] = true
+			out["sess."+core.FieldName(f)] = true
 		case *ssa.Alloc:
 			for _, ref := range *a.Referrers() {
 				if st, ok := ref.(*ssa.Store); ok && st.Addr == ssa.Value(a) {
@@ -514,7 +514,7 @@ func c20CtxFields(c *Ctx) {
 				}
 				owner := core.NamedOfShort(core.Deref(fa.X.Type()))
 				isCtx := strings.HasPrefix(owner, "ServerHandlerOn") && strings.HasSuffix(owner, "Ctx") && (f.Name() == "Path" || f.Name() == "Query")
-				isSess := owner == "ServerSession" && (f.Name() == "setuppedPath" || f.Name() == "setuppedQuery")
+				isSess := owner == "ServerSession" && (core.FieldName(f) == "setuppedPath" || core.FieldName(f) == "setuppedQuery")
 				if !isCtx && !isSess {
 					continue
 				}
@@ -522,16 +522,16 @@ func c20CtxFields(c *Ctx) {
 				c20Origins(p, st.Val, tags, map[ssa.Value]bool{})
 				var badTags []string
 				for t := range tags {
-					if !allowed[f.Name()][t] {
+					if !allowed[core.FieldName(f)][t] {
 						badTags = append(badTags, t)
 					}
 				}
 				sort.Strings(badTags)
-				k := fnShort(fn) + " " + owner + "." + f.Name()
+				k := fnShort(fn) + " " + owner + "." + core.FieldName(f)
 				nth[k]++
 				n++
 				r.Check(len(badTags) == 0, "C20/CTX-FIELDS", fmt.Sprintf("%s #%d", k, nth[k]), p.Pos(st.Pos()), strings.Join(core.SortedKeys(tags), ","),
-					fmt.Sprintf("%s.%s receives %s: the handler does not observe the %s of the request URL", owner, f.Name(), strings.Join(badTags, ","), strings.ToLower(strings.TrimPrefix(f.Name(), "setupped"))))
+					fmt.Sprintf("%s.%s receives %s: the handler does not observe the %s of the request URL", owner, core.FieldName(f), strings.Join(badTags, ","), strings.ToLower(strings.TrimPrefix(core.FieldName(f), "setupped"))))
 			}
 		}
 	}
@@ -718,6 +718,8 @@ func c20BaseURL(c *Ctx) {
 	last := p.Field("", "Client", "lastDescribeURL")
 	dd := p.Func("", "Client.doDescribe")
 	ds := p.Func("", "Client.doSetup")
+	p.Field("", "Client", "baseURL") // named so that a rename is followed (see the doSetup call sites below)
+	p.Field("", "setupReq", "baseURL")
 	if !r.Anchor("C20/BASE-URL", "Client.lastDescribeURL, Client.doDescribe, Client.doSetup", last != nil && dd != nil && ds != nil) {
 		return
 	}
@@ -768,10 +770,15 @@ func c20BaseURL(c *Ctx) {
 					walk(e, seen)
 				}
 			case *ssa.Parameter:
-				tags["param "+x.Name()] = true
+				if len(ds.Params) > 1 && x == ds.Params[1] {
+					// doSetup retrying itself with the base URL it was given
+					tags["param baseURL"] = true
+				} else {
+					tags["param "+x.Name()] = true
+				}
 			case *ssa.UnOp:
 				if fa, ok := x.X.(*ssa.FieldAddr); ok && x.Op == token.MUL {
-					tags["field "+core.FieldOfAddr(fa).Name()] = true
+					tags["field "+core.FieldName(core.FieldOfAddr(fa))] = true
 				} else if al, ok := x.X.(*ssa.Alloc); ok {
 					for _, rr := range *al.Referrers() {
 						if st, ok := rr.(*ssa.Store); ok && st.Addr == ssa.Value(al) {
@@ -782,7 +789,7 @@ func c20BaseURL(c *Ctx) {
 					tags["other "+core.PathOf(v)] = true
 				}
 			case *ssa.Field:
-				tags["field "+core.FieldOfVal(x).Name()] = true
+				tags["field "+core.FieldName(core.FieldOfVal(x))] = true
 			default:
 				tags["other "+core.PathOf(v)] = true
 			}
